@@ -9,6 +9,8 @@ PROP = {
         "Xt.Props.Json.json_roundtrip", "Xt.Props.Json.json_frame_recover",
         "Xt.Props.C01.toml_reorder_idempotent",
         "Xt.Props.C11.transcode_faithful", "Xt.Props.C11.valuepath_faithful",
+        # there and back for JSON / MessagePack on the composed end-to-end model
+        "Xt.Props.Fidelity.roundtrip_j_m_j", "Xt.Props.Fidelity.roundtrip_own_output",
     ],
     "trusted_base": [
         KERNEL, CORR, HARNESS,
@@ -19,12 +21,12 @@ PROP = {
         "ExtFloat.FmtParseFmt / RoundTrip for serde_json's float formatting and parsing (sampled on boundary and random bit patterns)",
         "Y.Idempotent, T.Idempotent: serde_yaml's and toml's writers are fixed points of their own readers on xt's output (sampled: every generated document is translated to B and B->B again)",
     ],
-    "rule": "implementation-level: generated documents (common model for the pair; plus the extensions a pair supports: nulls, non-string keys, binary, non-finite floats, 32-bit floats, TOML date-times) x 16 ordered pairs (A,B) x slice/reader at each hop: xt(B->B)(xt(A->B)(x)) == xt(A->B)(x) byte for byte; xt(B->A)(xt(A->B)(x)) == xt(A->A)(x) (TOML involved: same value up to the permitted reordering; K4 recognised). Correspondence: JSON engines and TOML order engine. Non-trivial = first hop succeeded with non-empty output; distinct = distinct (input, pair, supply).",
+    "rule": "implementation-level: generated documents (common model for the pair; plus the extensions a pair supports: nulls, non-string keys, binary, non-finite floats, 32-bit floats, TOML date-times) x 16 ordered pairs (A,B) x slice/reader at each hop: xt(B->B)(xt(A->B)(x)) == xt(A->B)(x) byte for byte; xt(B->A)(xt(A->B)(x)) == xt(A->A)(x) (TOML involved: same value up to the permitted reordering; K4 recognised). Correspondence: JSON engines, TOML order engine, and the JSON<->MessagePack end-to-end engines j2m / m2j (with the implementation-level roundtrip_j_m_j: xt's own JSON output -> MessagePack -> JSON is byte-identical). Non-trivial = first hop succeeded with non-empty output; distinct = distinct (input, pair, supply).",
     "hypotheses": ["Y.Idempotent", "T.Idempotent", "ExtFloat.FmtParseFmt", "RoundTrip per crate -- all sampled as the two equations above"],
 }
 
 MANIFEST = {
-    "text": "Lean 4 theorems: xt's JSON output (one line per document) is read back by both JSON loops as exactly the documents written and re-writing reproduces it byte for byte (floats under a named hypothesis); the permitted TOML reordering is idempotent; the transcoders pass values through unchanged. The models are tied to the code by the JSON and TOML-order correspondences. For YAML and TOML the writers/readers are third-party parameters: their idempotence and round trip are named hypotheses exercised on every run as the property's own two equations over all 16 pairs.",
+    "text": "Lean 4 theorems: xt's JSON output (one line per document) is read back by both JSON loops as exactly the documents written and re-writing reproduces it byte for byte (floats under a named hypothesis); the permitted TOML reordering is idempotent; the transcoders pass values through unchanged; JSON -> MessagePack -> JSON on the composed end-to-end model reproduces the JSON -> JSON output byte for byte (float-free input, any spelling, any supply modes). The models are tied to the code by the JSON and TOML-order correspondences. For YAML and TOML the writers/readers are third-party parameters: their idempotence and round trip are named hypotheses exercised on every run as the property's own two equations over all 16 pairs.",
     "design_ref": "DESIGN.md section 7 C06",
     "note": "Trusted: Lean kernel, correspondence harness. Sampled, not proved: serde_yaml / toml idempotence, float formatting. Known finding K4 (TOML three-pass order) is recognised in the there-and-back statement.",
     "technique": "Lean 4 proof (writer/parser round trip by induction; framing recovery) + model/implementation correspondence + sampled third-party hypotheses",
